@@ -382,9 +382,10 @@ def run(chk: Check) -> None:
 
     c03_clients.run(chk)
     chk.evaluations = chk.traces
-    from .. import burst
+    from .. import burst, recvbuffer
 
     burst.report(chk, "every complete packet once, then end-of-stream")
+    recvbuffer.run(chk)
     chk.assumptions += [
         "the scripted transport honours the transport contract (returns available bytes without waiting, b'' only after the peer closed and all "
         "bytes were read, TimeoutError only after waiting the whole timeout with nothing to deliver)",
